@@ -428,4 +428,9 @@ theorem C14_decoded_ints_bounded (isLetter : Nat → Bool) (n : Node) (p : List 
   · cases h
   · rename_i hb; simpa using hb
 
+/-- the tables and constants this property's theorems are stated over were READ OFF the current source on this run (a fact
+that can no longer be read is replaced by its expected value so that the model keeps compiling; it is then listed in
+`Facts.notExtracted` and this theorem fails) -/
+theorem C14_facts_extracted : ∀ n ∈ ["kindEqual", "kindGreaterThan", "kindGreaterThanOrEqual", "kindLessThan", "kindLessThanOrEqual", "kindNot", "kindAnd", "kindOr", "kindLike", "kindAll", "kindAny", "maxInt53", "minInt53"], n ∈ Ucan.Facts.extracted := by decide
+
 end Ucan.Policy
